@@ -176,3 +176,41 @@ m("c12-nonblocking-lock-ignored", "C12", "nomt/src/rollback/mod.rs",
   "        let mut seglog = match self.shared.seglog.try_lock() {\n            Some(lock) => lock,\n            None => return Ok(Some(delta)), // Another thread is holding the lock.\n        };\n",
   "        let mut seglog = self.shared.seglog.lock();\n",
   "guardfx|rollback::Rollback::commit_nonblocking|guard=lock_acquired|missing")
+
+# ---------------- C18 ----------------
+m("c18-delete-toomanysiblings", "C18", "core/src/proof/path_proof.rs",
+  "        if self.siblings.len() > core::cmp::min(key_path.len(), 256) {\n            return Err(PathProofVerificationError::TooManySiblings);\n        }\n",
+  "",
+  "panicfree|proof::path_proof::PathProof::verify|guarded|")
+m("c18-unwrap-in-hash-path", "C18", "core/src/proof/path_proof.rs",
+  "    for (bit, sibling) in path.iter().by_vals().rev().zip(siblings) {\n",
+  "    let _first = path.first().unwrap();\n    for (bit, sibling) in path.iter().by_vals().rev().zip(siblings) {\n",
+  "panicfree|proof::path_proof::hash_path|site|")
+m("c18-delete-prefix-guard", "C18", "core/src/proof/multi_proof.rs",
+  "        if n == skip {\n            return Err(MultiVerifyUpdateError::PathPrefixOfAnother);\n        }\n",
+  "",
+  "panicfree|proof::multi_proof::hash_and_compact_terminal|guarded|")
+m("c18-delete-malformed-depth-guard", "C18", "core/src/proof/multi_proof.rs",
+  "        if terminal_path.depth < start_depth || terminal_path.depth > terminal_bits.len() {\n            return Err(MultiProofVerificationError::MalformedProof);\n        }\n",
+  "",
+  "panicfree|proof::multi_proof::verify_range|guarded|")
+m("c18-weaken-malformed-guard", "C18", "core/src/proof/multi_proof.rs",
+  "    if common_bits > siblings.len()\n        || paths\n            .iter()\n            .any(|item| item.terminal.path().len() <= common_len)\n    {\n        return Err(MultiProofVerificationError::MalformedProof);\n    }\n",
+  "",
+  "KNOWN-MISS")  # documented limit: guards are identified by (function, error variant); other MalformedProof guards still dominate the site
+m("c18-new-index-in-confirm", "C18", "core/src/proof/path_proof.rs",
+  "        self.in_scope(&expected_leaf.key_path)\n            .map(|_| self.terminal() == Some(expected_leaf))",
+  "        let _b = expected_leaf.key_path[self.siblings.len()];\n        self.in_scope(&expected_leaf.key_path)\n            .map(|_| self.terminal() == Some(expected_leaf))",
+  "panicfree|proof::path_proof::VerifiedPathProof::confirm_value|site|")
+m("c18-construct-verified-elsewhere", "C18", "core/src/proof/path_proof.rs",
+  "    /// Get the proven path.\n    pub fn path(&self) -> &BitSlice<u8, Msb0> {",
+  "    /// Unchecked constructor.\n    pub fn assume(key_path: BitVec<u8, Msb0>, root: Node) -> Self {\n        VerifiedPathProof { key_path, terminal: None, siblings: Vec::new(), root }\n    }\n\n    /// Get the proven path.\n    pub fn path(&self) -> &BitSlice<u8, Msb0> {",
+  "invariant=vpp_keylen|constructor")
+m("c18-triepos-depth-store", "C18", "core/src/trie_pos.rs",
+  "    /// Whether the position is at the root.\n    pub fn is_root(&self) -> bool {",
+  "    /// Set the depth.\n    pub fn set_depth(&mut self, d: u16) {\n        self.depth = d;\n    }\n\n    /// Whether the position is at the root.\n    pub fn is_root(&self) -> bool {",
+  "invariant=triepos_depth|field-store")
+m("c18-benign-refactor", "C18", "core/src/proof/path_proof.rs",
+  "        let cur_node = self.terminal.node::<H>();\n",
+  "        let cur_node = {\n            let t = &self.terminal;\n            t.node::<H>()\n        };\n",
+  None)
